@@ -278,6 +278,7 @@ func RunCheck(p *Prop, tier string) int {
 	var execs, evals, points int64
 	maxDepth, maxCost := 0, 0
 	truncated := false
+	countCapped := false
 	nontriv := map[uint64]struct{}{}
 	outcomes := map[uint64]struct{}{}
 	states := map[uint64]struct{}{}
@@ -300,7 +301,10 @@ func RunCheck(p *Prop, tier string) int {
 		if r.MaxCost > maxCost {
 			maxCost = r.MaxCost
 		}
-		truncated = truncated || r.Truncated || r.CapHitNontriv
+		// (the cap bounds the memory of the SET used to count distinct cases, not
+		// the exploration: the count is then a lower bound, reported as such)
+		truncated = truncated || r.Truncated
+		countCapped = countCapped || r.CapHitNontriv
 		for _, h := range r.Nontriv {
 			nontriv[h] = struct{}{}
 		}
@@ -478,27 +482,28 @@ func RunCheck(p *Prop, tier string) int {
 	}
 
 	cov := map[string]any{
-		"evaluations":               evals,
-		"executions":                execs,
-		"distinct_nontrivial":       len(nontriv),
-		"distinct_outcomes":         len(outcomes),
-		"rule":                      p.Rule,
-		"samples":                   samples,
-		"exhaustive":                !truncated,
-		"choice_points":             points,
-		"max_depth":                 maxDepth,
-		"deviation_bound":           boundOf(p, tier),
-		"deviation_bound_completed": boundCompleted,
-		"max_deviations_used":       maxCost,
-		"variants":                  variants,
-		"executions_by_variant":     perVariantExec,
-		"shards":                    nshards,
-		"counters":                  counters,
-		"violation_groups":          violCounts,
-		"confirmed_groups":          confirmed,
-		"nondeterministic":          nondetKeys,
-		"groups_not_replayed":       max(0, unknownSeen-maxConfirm),
-		"budget_s":                  budget.Seconds(),
+		"evaluations":                        evals,
+		"executions":                         execs,
+		"distinct_nontrivial":                len(nontriv),
+		"distinct_nontrivial_is_lower_bound": countCapped,
+		"distinct_outcomes":                  len(outcomes),
+		"rule":                               p.Rule,
+		"samples":                            samples,
+		"exhaustive":                         !truncated,
+		"choice_points":                      points,
+		"max_depth":                          maxDepth,
+		"deviation_bound":                    boundOf(p, tier),
+		"deviation_bound_completed":          boundCompleted,
+		"max_deviations_used":                maxCost,
+		"variants":                           variants,
+		"executions_by_variant":              perVariantExec,
+		"shards":                             nshards,
+		"counters":                           counters,
+		"violation_groups":                   violCounts,
+		"confirmed_groups":                   confirmed,
+		"nondeterministic":                   nondetKeys,
+		"groups_not_replayed":                max(0, unknownSeen-maxConfirm),
+		"budget_s":                           budget.Seconds(),
 	}
 	if suppCov != nil {
 		cov["supplement"] = suppCov
